@@ -9,9 +9,10 @@
   alternative outcomes are a Go panic, `loop` and `pre`, see notes/status_inlines.md).
 -/
 import GM.Proof.Inlines
+import GM.Proof.InlinesLoopTotal
 
 namespace GM.Props.Inlines
-open GM GM.Text GM.Inl GM.Proof.Inlines
+open GM GM.Text GM.Spec GM.Inl GM.Proof.Inlines GM.Proof.InlinesReader GM.Proof.InlinesTotal
 
 /-- `no_delimiter_survives` (C05(b), "no leftover delimiter or bracket bookkeeping nodes"). Whatever the source,
     lines, references: after ProcessDelimiters(nil, pc) and CloseBlock no Delimiter node and no LinkLabelState
@@ -63,6 +64,68 @@ theorem processDelimiters_succeeds (bottom : Bottom) (kids : List Node) (h : pos
 theorem processDelimiters_nil_clears (kids res : List Node) (hk : topL kids = true)
     (h : processDelimiters .nil kids = .ok res) : wfL true res = true :=
   processDelimiters_nil_wfL h hk
+
+
+/-! ### termination and panic-freedom of the whole inline phase (C01)
+
+`WF0 src segs`: the block's lines are well-formed (`WFSegs` of C18: non-empty list; every line non-empty, inside
+the source, increasing, no ForceNewline) and carry no virtual padding — what the block parsers hand over for
+paragraphs, headings and the other inline-bearing blocks (the harness checks it on every block it compares). -/
+
+/-- `parseBlock_fuel_suffices_nobracket` (C01, inline phase). For EVERY source without `[` and `]`, every
+    well-formed line list, reference map and Unicode class assignment the inline phase of the block returns an
+    inline tree: no Go panic (index, slice, nil, assertion, `Segment.Between` on different lines, …), none of
+    the loops (`retry:` loop, code-span / raw-HTML line loops, the rune stream of `Reader.Match`) runs out of
+    its fuel, no modelling invariant is broken. Code spans, emphasis with ProcessDelimiters, autolinks, raw
+    HTML, hard and soft breaks are all in scope; the link parser only sees `!` and declines. -/
+theorem parseBlock_fuel_suffices_nobracket (env : Env) (src : Bytes) (segs : List Segment) (h : WF0 src segs)
+    (hnb : ∀ x ∈ src, x ≠ 91 ∧ x ≠ 93) : ∃ kids, parseBlock env src segs = .ok kids :=
+  parseBlock_total_nobracket h.1 h.2 env hnb
+
+/-- `parseBlock_fuel_suffices_of_link_contract` (C01, inline phase, all sources). The same for EVERY source,
+    given that the link parser keeps the contract every other parser is proved to keep (`PContract`: consulted at
+    one of its trigger bytes with the reader standing for a cursor, the recorded segments in order up to the
+    cursor and the context invariant `X`, it returns; the reader still stands for a cursor that did not move back;
+    a returned node means at least one byte was consumed and its segments lie between the old and the new
+    offset; `X` holds again). `X` is any invariant of (children, next id, linkBottom stack) that the loop's own
+    steps preserve and that implies `Length ≥ 1` for open delimiters. What is NOT proved is this contract for
+    `linkParser.Parse` on sources with brackets (notes/status_inlines.md). -/
+theorem parseBlock_fuel_suffices_of_link_contract (X : Ctx) (hbase : X.LK [] 0 [])
+    (hpos : ∀ k n b, X.LK k n b → posL k) (env : Env) (src : Bytes) (segs : List Segment) (h : WF0 src segs)
+    (hlink : PContract X src segs (trigOf .link) (Ip.link.parse env)) :
+    ∃ kids, parseBlock env src segs = .ok kids :=
+  parseBlock_total_of X hbase hpos h.1 h.2 env hlink
+
+/-- `retry_loop_terminates`: the `for { retry: … }` loop of parseBlock with ANY parsers that keep `PContract`
+    never exhausts a fuel larger than the number of bytes in front of the reader, and keeps the invariant
+    "the reader stands for a cursor, the recorded segments are in range and in order up to it". -/
+theorem retry_loop_terminates (X : Ctx) (env : Env) (src : Bytes) (segs : List Segment) (h : WF0 src segs)
+    (hC : ∀ ip, PContract X src segs (trigOf ip) (ip.parse env)) (fuel : Nat) (esc : Bool) (st : St) (c : BCur)
+    (hI : LInv X src segs st c) (hf : (BCur.remaining segs c).toNat < fuel) :
+    ∃ st' c', lineLoop env fuel esc st = .ok st' ∧ LInv X src segs st' c' :=
+  lineLoop_total X (GM.Proof.Reader.segFacts h.1) h.2 env hC fuel esc st c hI hf
+
+/-- `segments_in_range_and_ordered_at_loop_end` (C05(c) for inline content, partial). For every source without
+    `[`/`]` and well-formed lines: when the `retry:` loop of parseBlock has ended — i.e. before
+    ProcessDelimiters(nil) and CloseBlock rewrite delimiter and bracket nodes into Text / Emphasis — the segments
+    recorded in the children (Text, the raw Text of code spans, autolink values, raw-HTML segments, the segments of
+    the still open delimiters and labels), read in tree order, satisfy `0 ≤ s₁.start ≤ s₁.stop ≤ s₂.start ≤ … ≤
+    len(source)`: each lies inside the source, none is inverted, each starts at or after the end of the one
+    before. (`segsOfL` = the segments in tree order; `chain lo hi` = that inequality chain.)
+    Not proved: that ProcessDelimiters + CloseBlock keep the chain (they only shrink a delimiter's segment from
+    its end, merge adjacent texts, drop used-up delimiters and wrap runs of siblings; it needs the extra
+    delimiter invariant `Segment = [Start, Start+Length)`), and the same with brackets (link contract). -/
+theorem segments_in_range_and_ordered_at_loop_end (env : Env) (src : Bytes) (segs : List Segment) (h : WF0 src segs)
+    (hnb : ∀ x ∈ src, x ≠ 91 ∧ x ≠ 93) (r0 : BlockReader) (st' : St) (h0 : BlockReader.new src segs = .ok r0)
+    (hl : lineLoop env (blockFuel src segs) false { rd := r0 } = .ok st') :
+    chain 0 src.length (segsOfL st'.kids) :=
+  lineLoop_segments Ctx.trivial True.intro h.1 h.2 env (all_contracts_nobracket Ctx.trivial h.1 h.2 env hnb) h0 hl
+
+/-- the hypotheses are satisfiable (test on a literal): "a*b*" as one line -/
+example : WF0 [97, 42, 98, 42] [{ start := 0, stop := 4 }] := by
+  refine ⟨⟨by simp, ?_⟩, ?_⟩
+  · simp [WFSegsFrom]
+  · intro s hs; simp at hs; subst hs; rfl
 
 /-! #### the hypotheses are satisfiable (tests on literals) -/
 
